@@ -323,8 +323,15 @@ def rule_g(ctx):
     rule_f(_Alias(ctx, "C14.g"))
 
 
+def rule_h(ctx):
+    """a refusal by panic leaves nothing behind for good: shared with C12.a3"""
+    from .lockrules import cleanup_on_every_path
+    cleanup_on_every_path(ctx, "C14.h")
+
+
 def run(ctx):
     ctx.guarded("C14.g", rule_g)
+    ctx.guarded("C14.h", rule_h)
     ctx.guarded("C14.a", rule_a)
     ctx.guarded("C14.b", rule_b)
     ctx.guarded("C14.c", rule_c)
